@@ -154,9 +154,11 @@ structure Act where
 runs off its end -/
 structure ActOK (s : St) (a : Act) : Prop where
   step : StepVerified (fnB s a.f) a.ann
-  entry : ∃ t, annAt a.ann 0 = some t ∧ (fnB s a.f).entry.le t = true
+  /-- (an activation with a return address, `A ≠ 0`: not the top-level text) it was entered at instruction 0 -/
+  entry : a.A ≠ 0 → ∃ t, annAt a.ann 0 = some t ∧ (fnB s a.f).entry.le t = true
   len : a.ann.length = (fnB s a.f).code.length + 1
-  noEnd : annAt a.ann (fnB s a.f).code.length = none
+  /-- an activation with a return address never runs off its end (the top-level text does: that is how it ends) -/
+  noEnd : a.A ≠ 0 → annAt a.ann (fnB s a.f).code.length = none
   user : (fnOf s a.f).user = false
   idx : a.f < s.fns.length
   code : AllOK (szS s) (fnOf s a.f).code
@@ -174,11 +176,15 @@ structure Base where
   addr : List (Option (Nat × Int))
   cur : Nat
   pc : Int
+  /-- the bottom activation is the top-level text (`mainfunc`): it has no return address, and it ends by
+  running off its end instead of returning -/
+  main : Bool
 
 /-- the suspended callers, innermost first; `D`, `S`, `addr` are the data cells below the callee,
 its scope depth and the address stack while it runs -/
 def Chain (b : Base) (s : St) : List Act → List Cell → Nat → List (Option (Nat × Int)) → Prop
-  | [], D, S, addr => D = b.data.map cellOf ∧ S = b.linear.length ∧ addr = some (b.cur, b.pc + 1) :: b.addr
+  | [], D, S, addr => D = b.data.map cellOf ∧ S = b.linear.length ∧
+      (if b.main = true then addr = [] else addr = some (b.cur, b.pc + 1) :: b.addr)
   | a :: rest, D, S, addr => ∃ r tail, addr = some (a.f, r) :: tail ∧ 0 ≤ r ∧
       Bal.Inv a.ann a.D a.S a.A ⟨r.toNat, .val :: D, S, a.A⟩ ∧ a.A = tail.length ∧ ActOK s a ∧
       Chain b s rest a.D a.S tail
@@ -218,6 +224,7 @@ structure Finished (b : Base) (s : St) : Prop where
   data : s.data.map cellOf = .val :: b.data.map cellOf
   linear : s.linear = b.linear
   addr : s.addr = b.addr
+  notMain : b.main = false
 
 theorem suffix_of_drop {α} {base l : List α} (n : Nat) (h : base <:+ l) (hl : base.length ≤ (l.drop n).length) :
     base <:+ l.drop n := by
@@ -244,8 +251,27 @@ theorem Running.step {b : Base} {s s' : St} {top : Act} {rest : List Act} (h : R
   ⟨hcur.trans h.cur, hpc, inv_step_s _ _ h.ok.step _ _ _ _ _ h.inv hstep, h.ok.ext he,
    by rw [haddr]; exact Chain.ext he _ _ _ _ h.chain, hlin⟩
 
+theorem Running.topA {b : Base} {s : St} {top : Act} {rest : List Act} (h : Running b s top rest) : top.A = s.addr.length := by
+  obtain ⟨_, _, _, _, _, _, ha⟩ := h.inv
+  exact ha.symm
+
+/-- above a base that is not the top-level text every activation has a return address -/
+theorem Running.A_pos {b : Base} {s : St} {top : Act} {rest : List Act} (h : Running b s top rest) (hb : b.main = false) :
+    top.A ≠ 0 := by
+  rw [h.topA]
+  have hc := h.chain
+  cases rest with
+  | nil =>
+    obtain ⟨_, _, h3⟩ := hc
+    rw [hb] at h3
+    simp only [Bool.false_eq_true, if_false] at h3
+    rw [h3]; simp
+  | cons a r =>
+    obtain ⟨r', tail, h1, _⟩ := hc
+    rw [h1]; simp
+
 /-- while `Running` the pc is inside the code -/
-theorem Running.fetch {b : Base} {s : St} {top : Act} {rest : List Act} (h : Running b s top rest) :
+theorem Running.fetch {b : Base} {s : St} {top : Act} {rest : List Act} (h : Running b s top rest) (hA : top.A ≠ 0) :
     ¬ (s.pc = -1 ∨ s.pc ≥ curSize s) ∧ ∃ i, (fnOf s s.curfunc).code[s.pc.toNat]? = some i := by
   obtain ⟨a, own, hann, _, _, _, _⟩ := h.inv
   have hlt : (absC s).pc < top.ann.length := by
@@ -256,7 +282,7 @@ theorem Running.fetch {b : Base} {s : St} {top : Act} {rest : List Act} (h : Run
   rw [h.ok.len] at hlt
   have hne : (absC s).pc ≠ (fnB s top.f).code.length := by
     intro he
-    rw [he, h.ok.noEnd] at hann
+    rw [he, h.ok.noEnd hA] at hann
     cases hann
   have hlen : (fnB s top.f).code.length = (fnOf s s.curfunc).code.length := by
     rw [h.cur]; show (B s.loops (fnOf s top.f).code).length = _; rw [B_length]
